@@ -341,9 +341,9 @@ func TestC06Shared(t *testing.T) {
 	for _, c := range []*mont.Curve{mont.C25519, mont.C448} {
 		c := c
 		t.Run(c.Name, func(t *testing.T) {
-			n := vlib.N(1200, 9000)
+			n := vlib.N(1200, 6000)
 			if c.Bits == 448 {
-				n = vlib.N(600, 5000)
+				n = vlib.N(600, 3500)
 			}
 			vlib.Check(t, n, func(t *rapid.T) { sharedCase(t, c) })
 		})
